@@ -359,6 +359,7 @@ func (e *Env) indexExpr(n *ast.IndexExpr) Val {
 	case *types.Map:
 		k := coerce(e.eval(n.Index), t.Key())
 		mi := e.u.mapInfo(base.T)
+		k = e.keyOf(mi, k)
 		dom := e.arr(mi.domSite, SArr(mi.kSort, SBool))
 		present := and(not(eq(base.S[0], "0")), sel(sel(dom, base.S[0]), k.S[0]))
 		v := Val{T: t.Elem()}
@@ -764,6 +765,54 @@ func (e *Env) callExpr(n *ast.CallExpr) Val {
 			body = and(tf, body)
 		}
 		return boolVal(fmt.Sprintf("(exists ((%s Int)) (and (<= %s %s) (< %s %s) %s))", bv, lo, bv, bv, hi, body))
+	case "forallkey", "existskey":
+		// forallkey(k, m, P) / existskey(k, m, P): k ranges over the keys present in map m
+		argc(3)
+		id, ok := n.Args[0].(*ast.Ident)
+		if !ok {
+			specErrf("%s: first argument must be an identifier", name)
+		}
+		m := e.eval(n.Args[1])
+		mt, ok := m.T.Underlying().(*types.Map)
+		if !ok {
+			specErrf("%s: not a map", name)
+		}
+		mi := e.u.mapInfo(m.T)
+		bv := quoteSym("q!" + id.Name)
+		var kv Val
+		guard := []string{not(eq(m.S[0], "0")), sel(sel(e.arr(mi.domSite, SArr(mi.kSort, SBool)), m.S[0]), bv)}
+		if mi.strKey {
+			e.u.ensureStrKeys()
+			p, ln := app(strptrFn, bv), app(strlenFn, bv)
+			kv = Val{T: mt.Key(), S: []string{p, ln}, KeyID: bv}
+			guard = append(guard, eq(app(stridFn, p, ln), bv), le("0", ln), le(ln, "1099511627776"), le("0", p))
+		} else {
+			kv = Val{T: mt.Key(), S: []string{bv}}
+			if tf := e.u.typingFact(kv, e.st.mem); tf != "true" {
+				guard = append(guard, tf)
+			}
+		}
+		ne := e.withBound(id.Name, kv)
+		var facts []string
+		ne.qdepth = e.qdepth + 1
+		ne.qfacts = &facts
+		body := ne.evalBool(n.Args[2])
+		e.quant = true
+		tf := and(dedup(facts)...)
+		if name == "forallkey" {
+			if tf != "true" {
+				if e.assume {
+					body = and(tf, body)
+				} else {
+					body = implies(tf, body)
+				}
+			}
+			return boolVal(fmt.Sprintf("(forall ((%s %s)) (=> %s %s))", bv, mi.kSort, and(guard...), body))
+		}
+		if tf != "true" {
+			body = and(tf, body)
+		}
+		return boolVal(fmt.Sprintf("(exists ((%s %s)) (and %s %s))", bv, mi.kSort, and(guard...), body))
 	case "allbytes":
 		// allbytes(b, s, P): P holds for every byte b of byte slice / string s; quantified over addresses so that
 		// any read of the underlying array triggers the instantiation
@@ -793,6 +842,7 @@ func (e *Env) callExpr(n *ast.CallExpr) Val {
 		}
 		k := coerce(e.eval(n.Args[1]), mt.Key())
 		mi := e.u.mapInfo(m.T)
+		k = e.keyOf(mi, k)
 		dom := e.arr(mi.domSite, SArr(mi.kSort, SBool))
 		return boolVal(and(not(eq(m.S[0], "0")), sel(sel(dom, m.S[0]), k.S[0])))
 	case "instant":
@@ -1493,4 +1543,18 @@ func spanEnd(v Val) string {
 func isTimeType(t types.Type) bool {
 	n, ok := types.Unalias(t).(*types.Named)
 	return ok && n.Obj().Pkg() != nil && n.Obj().Pkg().Path() == "time" && n.Obj().Name() == "Time"
+}
+
+// keyOf converts a key value to the term that indexes the map's arrays (string keys: their identity).
+func (e *Env) keyOf(mi *mapInfo, k Val) Val {
+	if !mi.strKey {
+		return k
+	}
+	if k.KeyID != "" {
+		return Val{T: k.T, S: []string{k.KeyID}}
+	}
+	if e.specSites != nil {
+		specErrf("string map keys inside spec function bodies must be variables bound by forallkey/existskey")
+	}
+	return Val{T: k.T, S: []string{e.u.strKeyTerm(e.arr(strSite, SBV(8)), k)}}
 }
